@@ -118,6 +118,16 @@ class VStr(Value):
         return "numpy.str_" if self.np else "str"
 
 
+class VUndef(Value):
+    """value of an out-of-range position of a sequence (never legitimately observed; ite with it yields the other arm)"""
+
+    def py_type(self):
+        return "undefined"
+
+
+UNDEF = VUndef()
+
+
 class VTuple(Value):
     def __init__(self, items):
         self.items = list(items)
